@@ -183,7 +183,9 @@ def _dev1(maxk):
     return Tail()
 
 
-SHAPES = ["rect", "rrect", "circle", "ellipse", "line", "polyline", "polygon", "path", "mpath"]
+SHAPES = ["rect", "rrect", "circle", "ellipse", "line", "polyline", "polygon", "path", "mpath",
+          # shapes that carry a transform of their own (pending, not reified): the sum draws their transformed geometry
+          "rect-tf", "circle-tf", "polygon-tf", "line-tf", "path-tf"]
 
 
 class Concatenation(SubCheck):
@@ -239,6 +241,16 @@ class Concatenation(SubCheck):
             return s.Path("M1,2 q3,4 5,-6 t1,1 z")
         if kind == "mpath":
             return s.Path("m1,2 l3,4 m1,1 h4")
+        if kind == "rect-tf":
+            return s.Rect(2, 3, 7, 5) * "translate(10,20)"
+        if kind == "circle-tf":
+            return s.Circle(4, -3, 2.5, transform="scale(2)")
+        if kind == "polygon-tf":
+            return s.Polygon((1, 2), (6, -4), (8, 3)) * s.Matrix(0, 1, -1, 0, 3, 4)
+        if kind == "line-tf":
+            return s.SimpleLine(1, 2, 6, -4, transform="translate(-5,5) scale(3)")
+        if kind == "path-tf":
+            return s.Path("M1,2 q3,4 5,-6 t1,1 z", transform="translate(7,7)")
 
     def run(self, case):
         out = Outcome()
